@@ -2,11 +2,11 @@ package main
 
 import (
 	"bytes"
-	"encoding/json"
-	"os"
 	"compress/flate"
 	"encoding/gob"
+	"encoding/json"
 	"fmt"
+	"os"
 	"strings"
 	"sync"
 	"time"
@@ -52,6 +52,28 @@ func worldsFor(kind string) []world {
 
 // seedOps is the scripted prefix of the "distributed" root: the genesis output is split over several owners so that
 // the search also starts from a state with many spendable outputs (non-initial root).
+// rootsOf: the roots explored in a world (the 1 KiB-block world has a third one, see seedOpsFor)
+func rootsOf(cfg exploreCfg, w world) []string {
+	if w.SmallTxn {
+		return append(append([]string{}, cfg.Roots...), "ladder")
+	}
+	return cfg.Roots
+}
+
+func seedOpsFor(w world, root string) []op {
+	switch root {
+	case "distributed":
+		return seedOps(w)
+	case "ladder":
+		// five outputs of one owner with equal hours and 1, 10, ... 10 000 coins (one block), then four of the five "ladder"
+		// spends pending: their fee per kB DEcreases while the coins INcrease, and five of them exceed the 1 KiB block, so which
+		// four a publisher selects is sensitive to the time base (coin hours accrue per coin) and to any coin-dependent term in
+		// its ranking; the fifth injection and the publication are left to the search
+		return []op{{"inject-user", "ladder-fanout"}, {"publish", "1h"}, {"inject-user", "ladder-0"}, {"inject-user", "ladder-1"}, {"inject-user", "ladder-2"}, {"inject-user", "ladder-3"}}
+	}
+	return nil
+}
+
 func seedOps(w world) []op {
 	if w.SmallTxn {
 		// six spendable outputs, so that five non-conflicting ~220-byte transactions can be pending against the 1 KiB block limit
@@ -84,13 +106,16 @@ func runExplore(r *engine.Run, prop string, cfg exploreCfg, rule string) {
 			mu.Unlock()
 		}
 	}
-	ncalls, callNo := len(cfg.Worlds)*len(cfg.Roots), 0
+	ncalls, callNo := 0, 0
+	for _, w := range cfg.Worlds {
+		ncalls += len(rootsOf(cfg, w))
+	}
 	begin := time.Now()
 	total := engine.BFSResult{Outcomes: map[string]int{}}
 	allAux := map[string]int{}
 	perWorld := map[string]interface{}{}
 	for _, w := range cfg.Worlds {
-		for _, root := range cfg.Roots {
+		for _, root := range rootsOf(cfg, w) {
 			w, root := w, root
 			callNo++
 			deadline := begin.Add(cfg.Budget * time.Duration(callNo) / time.Duration(ncalls))
@@ -101,8 +126,8 @@ func runExplore(r *engine.Run, prop string, cfg exploreCfg, rule string) {
 			}
 			newRoot := func() *live {
 				l := &live{n: freshNode(w)}
-				if root == "distributed" {
-					for _, o := range seedOps(w) {
+				if root != "genesis" {
+					for _, o := range seedOpsFor(w, root) {
 						oc := l.n.apply(o, false, nil)
 						if !strings.Contains(oc, "accepted") && !strings.HasPrefix(oc, "inject:ok") && !strings.HasPrefix(oc, "inject:soft") && !strings.HasPrefix(oc, "publish:") {
 							panic(fmt.Sprintf("CHECK-BROKEN: seed op %s gave %s", o, oc))
@@ -132,70 +157,70 @@ func runExplore(r *engine.Run, prop string, cfg exploreCfg, rule string) {
 					return t
 				},
 				Space: engine.Space[*live, op]{
-				New:   newRoot,
-				Close: func(l *live) { l.n.close() },
-				Ops: func(l *live) []op {
-					if l.n.M == nil {
-						return nil
-					}
-					if w.SmallTxn {
-						return l.n.ops("C05small")
-					}
-					return l.n.ops(prop)
-				},
-				Apply: func(l *live, o op, check bool) string {
-					if l.n.M == nil {
-						return "dead"
-					}
-					oc := l.n.apply(o, check, mkFail(ctxOf(l, &o), caseOf(w, root, l.hist, &o)))
-					if !check {
-						l.hist = append(l.hist, o)
-					} else {
-						l.last = &o
-					}
-					// outcome class for the histogram: strip the counts
-					if i := strings.LastIndex(oc, ":"); i > 0 && strings.ContainsAny(oc[i:], "0123456789") && !strings.Contains(oc, "inject") && !strings.Contains(oc, "block") {
-						oc = oc[:i]
-					}
-					return oc
-				},
-				Key: func(l *live) string {
-					if l.n.DB == nil {
-						return "dead"
-					}
-					if l.n.M == nil {
-						return "dishonest:" + l.n.key()
-					}
-					return l.n.key()
-				},
-				Invariant: func(l *live, h []op) {
-					if l.n.M == nil {
-						return
-					}
-					l.n.deepVerify = prop == "C04" || prop == "C07"
-					l.n.checkState(mkFail(ctxOf(l, nil), caseOf(w, root, l.hist, nil)), cfg.FullViews)
-				},
-				Save: func(l *live) any {
-					h := append([]op{}, l.hist...)
-					if l.last != nil {
-						h = append(h, *l.last)
-					}
-					if l.n.M == nil {
-						return &savedLive{dead: true, hist: h}
-					}
-					return &savedLive{snap: l.n.save().(*snapshot), hist: h}
-				},
-				Load: func(s any) *live {
-					sl := s.(*savedLive)
-					if sl.dead {
-						return &live{n: &node{W: w}, hist: sl.hist}
-					}
-					return &live{n: loadNode(w, sl.snap), hist: append([]op{}, sl.hist...)}
-				},
-				MaxDepth:  cfg.MaxDepth,
-				MaxStates: cfg.MaxStates,
-				Stop:      func() bool { return time.Now().After(deadline) },
-			}}
+					New:   newRoot,
+					Close: func(l *live) { l.n.close() },
+					Ops: func(l *live) []op {
+						if l.n.M == nil {
+							return nil
+						}
+						if w.SmallTxn {
+							return l.n.ops("C05small")
+						}
+						return l.n.ops(prop)
+					},
+					Apply: func(l *live, o op, check bool) string {
+						if l.n.M == nil {
+							return "dead"
+						}
+						oc := l.n.apply(o, check, mkFail(ctxOf(l, &o), caseOf(w, root, l.hist, &o)))
+						if !check {
+							l.hist = append(l.hist, o)
+						} else {
+							l.last = &o
+						}
+						// outcome class for the histogram: strip the counts
+						if i := strings.LastIndex(oc, ":"); i > 0 && strings.ContainsAny(oc[i:], "0123456789") && !strings.Contains(oc, "inject") && !strings.Contains(oc, "block") {
+							oc = oc[:i]
+						}
+						return oc
+					},
+					Key: func(l *live) string {
+						if l.n.DB == nil {
+							return "dead"
+						}
+						if l.n.M == nil {
+							return "dishonest:" + l.n.key()
+						}
+						return l.n.key()
+					},
+					Invariant: func(l *live, h []op) {
+						if l.n.M == nil {
+							return
+						}
+						l.n.deepVerify = prop == "C04" || prop == "C07"
+						l.n.checkState(mkFail(ctxOf(l, nil), caseOf(w, root, l.hist, nil)), cfg.FullViews)
+					},
+					Save: func(l *live) any {
+						h := append([]op{}, l.hist...)
+						if l.last != nil {
+							h = append(h, *l.last)
+						}
+						if l.n.M == nil {
+							return &savedLive{dead: true, hist: h}
+						}
+						return &savedLive{snap: l.n.save().(*snapshot), hist: h}
+					},
+					Load: func(s any) *live {
+						sl := s.(*savedLive)
+						if sl.dead {
+							return &live{n: &node{W: w}, hist: sl.hist}
+						}
+						return &live{n: loadNode(w, sl.snap), hist: append([]op{}, sl.hist...)}
+					},
+					MaxDepth:  cfg.MaxDepth,
+					MaxStates: cfg.MaxStates,
+					Stop:      func() bool { return time.Now().After(deadline) },
+				}}
 			// the self-loop shortcut of the BFS appends to hist of a reused instance; histories in failure messages therefore
 			// show rejected operations too (they did not change the state)
 			if w.SmallTxn {
@@ -334,8 +359,8 @@ func replayLedger(prop, file string) int {
 			}
 		}
 		ops := c.Ops
-		if c.Root == "distributed" && !(len(ops) >= len(seedOps(w)) && fmt.Sprint(ops[:len(seedOps(w))]) == fmt.Sprint(seedOps(w))) {
-			ops = append(append([]op{}, seedOps(w)...), ops...)
+		if so := seedOpsFor(w, c.Root); len(so) > 0 && !(len(ops) >= len(so) && fmt.Sprint(ops[:len(so)]) == fmt.Sprint(so)) {
+			ops = append(append([]op{}, so...), ops...)
 		}
 		for _, o := range ops {
 			n.apply(o, false, nil)
